@@ -265,7 +265,7 @@ def signing__ListKeyIDs : List String := [
 def signing__SignJSON : List String := [
   "func func(signingName string, keyID KeyID, privateKey ed25519.PrivateKey, message []byte) (signed []byte, err error)",
   "preserve := struct { Signatures map[string]map[KeyID]spec.Base64Bytes `json:\"signatures\"` Unsigned spec.RawJSON `json:\"unsigned\"` }{Signatures: map[string]map[KeyID]spec.Base64Bytes{}}",
-  "if err = checkStrictJSON(message, false); err != nil {",
+  "if err = checkStrictJSON(message, false, false); err != nil {",
   "return nil, err",
   "}",
   "var object map[string]json.RawMessage",
@@ -319,7 +319,7 @@ def signing__VerifyJSON : List String := [
   "func func(signingName string, keyID KeyID, publicKey ed25519.PublicKey, message []byte) error",
   "var object map[string]*json.RawMessage",
   "var signatures map[string]map[KeyID]spec.Base64Bytes",
-  "if err := checkStrictJSON(message, true); err != nil {",
+  "if err := checkStrictJSON(message, true, true); err != nil {",
   "return err",
   "}",
   "if err := json.Unmarshal(message, &object); err != nil {",
@@ -358,11 +358,22 @@ def signing__VerifyJSON : List String := [
 ]
 
 def signing__checkStrictJSON : List String := [
-  "func func(message []byte, requireUTF8 bool) error",
-  "if !gjson.ValidBytes(message) {",
+  "func func(message []byte, requireUTF8, skipUnsigned bool) error",
+  "if !json.Valid(message) || !gjson.ValidBytes(message) {",
   "return fmt.Errorf(\"gomatrixserverlib: invalid JSON\")",
   "}",
-  "return checkStrictValue(gjson.ParseBytes(message), requireUTF8)"
+  "walk := jsonWalk{decodeName: func(raw []byte, escaped bool) (string, bool) { if !escaped { return string(raw[1 : len(raw)-1]), true } return gjson.ParseBytes(raw).Str, true }, checkString: func(raw []byte) error { return checkStrictString(string(raw), requireUTF8) }}",
+  "if skipUnsigned {",
+  "walk.skipMember = func(name string) bool { return name == \"unsigned\" }",
+  "}",
+  "name, duplicate, err := walk.duplicateName(message)",
+  "if err != nil {",
+  "return err",
+  "}",
+  "if duplicate {",
+  "return fmt.Errorf(\"gomatrixserverlib: duplicate object member %q\", name)",
+  "}",
+  "return nil"
 ]
 
 def signing__checkStrictString : List String := [
@@ -389,20 +400,6 @@ def signing__checkStrictString : List String := [
   "i += 6",
   "}",
   "return nil"
-]
-
-def signing__checkStrictValue : List String := [
-  "func func(value gjson.Result, requireUTF8 bool) (err error)",
-  "switch {",
-  "case value.Type == gjson.String:",
-  "return checkStrictString(value.Raw, requireUTF8)",
-  "case value.IsObject():",
-  "names := make(map[string]struct{})",
-  "value.ForEach(func(name, member gjson.Result) bool { if err = checkStrictString(name.Raw, requireUTF8); err != nil { return false } if _, duplicate := names[name.Str]; duplicate { err = fmt.Errorf(\"gomatrixserverlib: duplicate object member %q\", name.Str) return false } names[name.Str] = struct{}{} err = checkStrictValue(member, requireUTF8) return err == nil })",
-  "case value.IsArray():",
-  "value.ForEach(func(_, element gjson.Result) bool { err = checkStrictValue(element, requireUTF8) return err == nil })",
-  "}",
-  "return err"
 ]
 
 def spec_base64_Base64Bytes_Decode : List String := [
@@ -461,6 +458,6 @@ def spec_base64_Base64Bytes_Value : List String := [
   "return b64.Encode(), nil"
 ]
 
-def functions : List String := ["json.go:EventJSONs.TrustedEvents", "json.go:EventJSONs.UntrustedEvents", "json.go:.CanonicalJSON", "json.go:.CanonicalJSONAssumeValid", "json.go:.CompactJSON", "json.go:.EnforcedCanonicalJSON", "json.go:.NewEventJSONsFromEvents", "json.go:.SortJSON", "json.go:.compactUnicodeEscape", "json.go:.isNegativeZeroLiteral", "json.go:.noVerifyCanonicalJSON", "json.go:.readHexDigits", "json.go:.sortJSONArray", "json.go:.sortJSONObject", "json.go:.sortJSONValue", "json.go:.verifyEnforcedCanonicalJSON", "signing.go:.ListKeyIDs", "signing.go:.SignJSON", "signing.go:.VerifyJSON", "signing.go:.checkStrictJSON", "signing.go:.checkStrictString", "signing.go:.checkStrictValue", "spec/base64.go:Base64Bytes.Decode", "spec/base64.go:Base64Bytes.Encode", "spec/base64.go:Base64Bytes.MarshalJSON", "spec/base64.go:Base64Bytes.MarshalYAML", "spec/base64.go:Base64Bytes.Scan", "spec/base64.go:Base64Bytes.UnmarshalJSON", "spec/base64.go:Base64Bytes.UnmarshalYAML", "spec/base64.go:Base64Bytes.Value"]
+def functions : List String := ["json.go:EventJSONs.TrustedEvents", "json.go:EventJSONs.UntrustedEvents", "json.go:.CanonicalJSON", "json.go:.CanonicalJSONAssumeValid", "json.go:.CompactJSON", "json.go:.EnforcedCanonicalJSON", "json.go:.NewEventJSONsFromEvents", "json.go:.SortJSON", "json.go:.compactUnicodeEscape", "json.go:.isNegativeZeroLiteral", "json.go:.noVerifyCanonicalJSON", "json.go:.readHexDigits", "json.go:.sortJSONArray", "json.go:.sortJSONObject", "json.go:.sortJSONValue", "json.go:.verifyEnforcedCanonicalJSON", "signing.go:.ListKeyIDs", "signing.go:.SignJSON", "signing.go:.VerifyJSON", "signing.go:.checkStrictJSON", "signing.go:.checkStrictString", "spec/base64.go:Base64Bytes.Decode", "spec/base64.go:Base64Bytes.Encode", "spec/base64.go:Base64Bytes.MarshalJSON", "spec/base64.go:Base64Bytes.MarshalYAML", "spec/base64.go:Base64Bytes.Scan", "spec/base64.go:Base64Bytes.UnmarshalJSON", "spec/base64.go:Base64Bytes.UnmarshalYAML", "spec/base64.go:Base64Bytes.Value"]
 
 end VPins.C02
